@@ -17,7 +17,7 @@ func (Prop) Configs(tier string) []string {
 }
 
 var lightScenario = map[string]bool{"S1-sm2-key": true, "S2-sm2-key-d=n-1": true, "S3-ecdh-key": true, "S9-sm3-constructors": true, "S10-sm2-public-key": true,
-	"S15-sm9-generated-key-two-unwraps": true, "S6a-sm2-singletons": true}
+	"S15-sm9-generated-key-two-unwraps": true, "S6a-sm2-singletons": true, "S16-keygen-on-shared-singletons": true}
 
 // tierDependent lists the scenarios whose shared objects are implemented differently per CPU dispatch tier
 // (SM4 block / AEAD / mode objects, SM3 KDF lanes); only these are repeated on the non-default tiers.
